@@ -224,10 +224,19 @@ func scenarioRead(op string) func(c *harness.Ctx) {
 			if n > 600 && tp.Choose(n/300) != 0 {
 				continue
 			}
-			for variant := 0; variant < 2; variant++ {
+			nVariants := 2
+			if c.Tier == "thorough" {
+				nVariants = 12 // every error kind x with/without data x contiguous/one-byte
+			}
+			for variant := 0; variant < nVariants; variant++ {
 				e := (k + variant*2 + tp.Choose(3)) % 3
 				withData := variant == 1 && k > 0
 				oneByte := tp.Bool(1, 3)
+				if nVariants == 12 {
+					e = variant % 3
+					withData = (variant/3)%2 == 1 && k > 0
+					oneByte = variant/6 == 1
+				}
 				fr := &simio.FragReader{Data: stream, FailAt: k, FailErr: errs[e], FailWithData: withData, OneByte: oneByte}
 				faults[e].Hit()
 				if withData {
